@@ -26,7 +26,10 @@ RULE = ("getitem: exhaustive index expressions (ints incl. negative/out-of-range
         "every broadcastable value batch shape x dist batch x representation x {torch-Cholesky, "
         "linear_operator-Cholesky, CG quad-only}; KL, rsample (all sample shapes, unit-vector stacking), affine "
         "ops, expand/unsqueeze/add_jitter, variance/stddev/confidence_region, Delta-KL on random low-bit dyadic "
-        "inputs.  distinct = distinct (kind, representation, shapes, index expression / op, config); "
+        "inputs; op-then-use histories (uses before the op x negative/zero/tiny scalars and op chains x every consumer "
+        "after it: log_prob on 3 paths, entropy, scale_tril, rsample, variance; operand unchanged); getitem on "
+        "distributions with variances 1e-14/1e-12/0 and under settings.min_variance floors (covariance, variance, "
+        "log_prob of the marginal).  distinct = distinct (kind, representation, shapes, index expression / op, config); "
         "non-trivial = the real code accepted the input and returned a distribution/tensor that was compared")
 EXHAUSTIVE = True
 TRUSTED = ["mpmath log of the exact rational determinant (40 digits)",
@@ -36,7 +39,12 @@ ASSUMPTIONS = ["float64 only; inputs are dyadic rationals with <= 8 fractional b
                "batch elements are independent replicas (also after duplication by expand / batch index lists)",
                "fast path with max_cholesky_size(0): the log-determinant is a stochastic Lanczos estimate; only the "
                "quadratic part is compared (settings.skip_logdet_forward) — the log-det of that path is NOT checked",
-               "root_decomposition().root of linear_operator satisfies R R^T = Sigma (residual recorded per case)"]
+               "root_decomposition().root of linear_operator satisfies R R^T = Sigma (residual recorded per case; when it "
+               "does not and rsample used exactly that root, an ASSUMPTION line is written instead of a violation)",
+               "settings.min_variance clamps `.variance` (hence stddev / confidence_region) only; covariance_matrix, "
+               "log_prob, rsample and marginals use the unclamped covariance",
+               "CG quad-only path is exercised for covariance scales in [1e-3, 1e3] only (absolute thresholds inside "
+               "linear_operator's CG)"]
 
 RTOL, ATOL = 1e-8, 1e-9
 
@@ -1448,7 +1456,7 @@ def _execute(ctx, cases, use_driver=True):
     import torch
     torch.set_num_threads(2)
     torch.set_default_dtype(torch.float64)
-    statuses, rej_msgs, rres_max = {}, {}, 0.0
+    statuses, rej_msgs, rres_max, prim = {}, {}, 0.0, {}
     pend, lines = [], []
     for case in cases:
         ls, judge = RUNNERS[case["kind"]](case)
@@ -1470,7 +1478,12 @@ def _execute(ctx, cases, use_driver=True):
             rej_msgs[key] = rej_msgs.get(key, 0) + 1
         rres_max = max(rres_max, res.get("rres", 0.0))
         if "assumption" in res:
-            ctx.assumption(res["assumption"])
+            if "prim" in res:
+                prim[res["prim"]] = prim.get(res["prim"], 0) + 1
+                if prim[res["prim"]] == 1:
+                    ctx.assumption("ASSUMPTION " + res["assumption"])
+            else:
+                ctx.assumption(res["assumption"])
         compared = res["status"] == "compared" or res["status"].startswith("raised") or res["status"].startswith("rejected")
         ctx.case(_desc(case), nontrivial=(res["status"] == "compared"),
                  sample={"case": _desc(case), "status": res["status"]} if res["status"] == "compared" else None)
@@ -1481,6 +1494,7 @@ def _execute(ctx, cases, use_driver=True):
     ctx.notes["case_status_counts"] = dict(sorted(statuses.items()))
     ctx.notes["getitem_rejection_reasons"] = dict(sorted(rej_msgs.items(), key=lambda kv: -kv[1])[:25])
     ctx.notes["max_root_decomposition_residual"] = rres_max
+    ctx.notes["linear_operator_primitive_contract_failures"] = prim
     ctx.notes["model_only_lines"] = len(extra)
     if rres_max > 1e-9:
         ctx.assumption(f"linear_operator root_decomposition residual max|R R^T - Sigma| = {rres_max:.3g} (> 1e-9)")
@@ -1569,6 +1583,26 @@ def _use(d, what, v, k):
     if what == "cov":
         return d.covariance_matrix
     raise ValueError(what)
+
+
+def _root_split(dist, X, S2, rtol=1e-7):
+    """Assume/guarantee split for `rsample(base_samples)`.  X: stacked unit-vector responses (numpy), S2: expected
+    covariance.  Returns (verdict, residual): 'ok' (X X^T = S2); 'primitive' (X is exactly the root that
+    linear_operator's `root_decomposition()` returned, but that root violates R R^T = covariance — an assumption
+    failure of linear_operator, outside /repo); 'gpytorch' (X X^T != S2 and X is not the primitive's root)."""
+    np = _np()
+    G = X @ np.swapaxes(X, -1, -2)
+    if _relclose(G, S2, _cov_scale(S2), rtol):
+        return "ok", 0.0
+    resid = float(np.max(np.abs(G - S2))) if G.shape == S2.shape else float("nan")
+    try:
+        R = dist.lazy_covariance_matrix.root_decomposition().root.to_dense().detach().numpy()
+        R = np.broadcast_to(R, X.shape[:-2] + R.shape[-2:])
+        if R.shape == X.shape and _relclose(X, R, np.maximum(np.abs(R), np.sqrt(np.abs(np.diagonal(S2, axis1=-2, axis2=-1)))[..., None]), 1e-9):
+            return "primitive", resid
+    except Exception:
+        pass
+    return "gpytorch", resid
 
 
 def run_hist(case):
@@ -1687,6 +1721,7 @@ def run_hist(case):
                         u[..., j] = 1.0
                         cols.append(r.rsample(base_samples=torch.tensor(u)).detach().numpy() - out["mean"])
                     out["X"] = np.stack(cols, -1)
+                    out["Xverdict"] = _root_split(r, out["X"], S2) if out["X"].shape[:-1] == B2 + (n2,) else ("gpytorch", float("nan"))
                 except Exception as e:
                     out["X"] = e
             # the source distribution must be what it was
@@ -1776,8 +1811,13 @@ def run_hist(case):
             X = out["X"]
             if isinstance(X, Exception):
                 fail("rsample", f"rsample(base_samples) raises {type(X).__name__}: {str(X)[:120]}")
-            elif X.shape[:-1] != B2 + (n2,) or not _relclose(X @ np.swapaxes(X, -1, -2), S2, _cov_scale(S2), 1e-7):
-                fail("rsample", "stacked unit-vector responses X of the result do not satisfy X X^T = covariance")
+            elif out["Xverdict"][0] == "gpytorch":
+                fail("rsample", f"stacked unit-vector responses X of the result do not satisfy X X^T = covariance (max dev "
+                     f"{out['Xverdict'][1]:.3g}) and X is not the root returned by root_decomposition()")
+            elif out["Xverdict"][0] == "primitive":
+                res["assumption"] = (f"linear_operator root_decomposition() of {opsname} result ({rep}) violates R R^T = A "
+                                     f"(max dev {out['Xverdict'][1]:.3g}); rsample used exactly that root")
+                res["prim"] = f"root_decomposition:{rep}:{opsname}"
         if not (_allclose(out["src_mean"], src_mean) and _allclose(out["src_cov"], src_cov)
                 and _allclose(src_mean, mu) and _allclose(src_cov, S)):
             fail("source-changed", "the operand distribution's mean/covariance changed")
@@ -1856,7 +1896,7 @@ def run_getitem_var(case):
     err, out = None, {}
     if mean_ref is not None and mean_ref.ndim > 0 and mean_ref.size > 0:
         dg = np.diagonal(cov_ref, axis1=-2, axis2=-1)
-        v = mean_ref + np.sqrt(np.abs(dg)) * np.broadcast_to(z.reshape(-1)[:mean_ref.shape[-1]], mean_ref.shape)
+        v = mean_ref + np.sqrt(np.abs(dg)) * np.broadcast_to(np.resize(z.reshape(-1), mean_ref.shape[-1]), mean_ref.shape)
         try:
             with warnings.catch_warnings():
                 warnings.simplefilter("ignore")
